@@ -50,6 +50,9 @@ type scenario struct {
 	Scripts []string `json:"scripts"` // kinds, run concurrently by one RunT
 	Keep    bool     `json:"keep"`    // WorkdirRoot set (retention)
 	Bound   int      `json:"bound"`
+	// SameBase: the script files all have the same base name, in different
+	// directories (RunT disambiguates the test names: same, same#1, ...)
+	SameBase bool `json:"same_base"`
 }
 
 func (s scenario) String() string {
@@ -57,7 +60,11 @@ func (s scenario) String() string {
 	if s.Bound < 0 {
 		b = "all schedules"
 	}
-	return fmt.Sprintf("[%s] keep=%v %s", strings.Join(s.Scripts, " || "), s.Keep, b)
+	sb := ""
+	if s.SameBase {
+		sb = " same-file-base-name"
+	}
+	return fmt.Sprintf("[%s] keep=%v%s %s", strings.Join(s.Scripts, " || "), s.Keep, sb, b)
 }
 
 // per-script observations
@@ -91,6 +98,17 @@ type instance struct {
 var instSeq int
 
 func scriptName(i int, kind string) string { return fmt.Sprintf("s%d%s", i, strings.ToLower(kind)) }
+
+// testName is the name RunT gives script i of the scenario.
+func (s scenario) testName(i int) string {
+	if !s.SameBase {
+		return scriptName(i, s.Scripts[i])
+	}
+	if i == 0 {
+		return "same"
+	}
+	return fmt.Sprintf("same#%d", i)
+}
 
 func (in *instance) scriptText(kind string) string {
 	var sb strings.Builder
@@ -189,6 +207,12 @@ func (in *instance) body() {
 	in.post = ""
 	var files []string
 	for i, k := range in.sc.Scripts {
+		if in.sc.SameBase {
+			d := filepath.Join(scripts, fmt.Sprintf("dir%d", i))
+			os.MkdirAll(d, 0o777)
+			files = append(files, tsh.WriteScript(d, "same.txt", in.scriptText(k)))
+			continue
+		}
 		files = append(files, tsh.WriteScript(scripts, scriptName(i, k)+".txt", in.scriptText(k)))
 	}
 	t := tsh.NewT("goexit", false)
@@ -244,8 +268,11 @@ func (in *instance) after() (string, string) {
 		return "harness", fmt.Sprintf("RunT ran %d scripts: %s", len(in.t.Results), in.t.RootFatal)
 	}
 	for i, k := range in.sc.Scripts {
-		name := scriptName(i, k)
+		name := in.sc.testName(i)
 		o := in.obs[name]
+		if o == nil {
+			return "harness", fmt.Sprintf("no observations for script %s (results: %d)", name, len(in.t.Results))
+		}
 		// (1) same results as when run alone
 		if want, ok := in.solo[k]; ok && o.String() != want {
 			class := "interference"
@@ -429,24 +456,27 @@ func scenarios(th bool) []scenario {
 		{"X", "Y"}, {"Y", "X"},
 	}
 	for _, p := range pairs {
-		scs = append(scs, scenario{p, false, b2})
+		scs = append(scs, scenario{Scripts: p, Bound: b2})
 	}
 	for _, p := range [][]string{{"P", "F"}, {"P", "R"}, {"B", "K"}, {"D", "T"}} {
-		scs = append(scs, scenario{p, true, b2})
+		scs = append(scs, scenario{Scripts: p, Keep: true, Bound: b2})
+	}
+	for _, p := range [][]string{{"P", "F"}, {"E", "P"}, {"P", "P"}} {
+		scs = append(scs, scenario{Scripts: p, Bound: b2, SameBase: true}, scenario{Scripts: p, Keep: true, Bound: b2, SameBase: true})
 	}
 	// single scripts: every exit path on its own (cleanup with one script)
 	for k := range kinds {
 		if k == "X" || k == "Y" {
 			continue
 		}
-		scs = append(scs, scenario{[]string{k}, false, -1})
+		scs = append(scs, scenario{Scripts: []string{k}, Bound: -1})
 	}
 	triples := [][]string{{"P", "F", "K"}, {"R", "P", "T"}, {"D", "F", "P"}}
 	if th {
 		triples = append(triples, []string{"B", "P", "F"}, []string{"R", "R", "F"}, []string{"E", "K", "T"})
 	}
 	for _, t := range triples {
-		scs = append(scs, scenario{t, false, 2})
+		scs = append(scs, scenario{Scripts: t, Bound: 2})
 	}
 	sort.Slice(scs, func(i, j int) bool { return scs[i].String() < scs[j].String() })
 	return scs
